@@ -16,6 +16,8 @@
 (*   signer    the key under which the signature verifies ("bad": under    *)
 (*             none, the forged-signature twin)                            *)
 (*   isCA      basic constraints CA bit                                    *)
+(*   ski, aki  subject / authority key identifier: a token or "none"       *)
+(*             (hints for the search, they take no part in Links)          *)
 (*   ekus      extended key usages present                                 *)
 (*   poison    CT poison extension: "none"; "ok" (critical, value is       *)
 (*             exactly the DER NULL 05 00); every other state is a         *)
@@ -52,6 +54,18 @@ Linked(ch) == \A i \in 1..Len(ch) - 1 : Links(ch[i], ch[i + 1])
 \* trusted certificates that directly issued the last submitted one
 Anchors(ch, T) == {r \in T : Links(Last(ch), r) /\ r \notin Range(ch)}
 Anchored(ch, T) == Last(ch) \in T \/ Anchors(ch, T) # {}
+
+\* NAMED CLAUSE KeyIdsAgree.  Key identifiers are hints: the property speaks of names, signatures and the CA bit only,
+\* and so do Links / ChainOK.  The hierarchies of the model are those RFC 5280 s4.2.1.2 allows: a certificate that has an
+\* authority key identifier carries the subject key identifier of every certificate holding its signer key (several
+\* certificates may share a key and therefore an identifier: a re-issued, a cross-signed, a RENAMED CA - same key under
+\* another name - next to the same name under ANOTHER key).  Hierarchies in which a certificate's authority key
+\* identifier names somebody else's key while its true issuer has another identifier are outside the model (the code's
+\* candidate lookup by identifier would hide the issuer it finds by name: an observation, not asserted).
+\* (records of models that do not speak of key identifiers - EntryShapes - have none: every lookup is by name)
+AkiOf(c) == IF "aki" \in DOMAIN c THEN c.aki ELSE "none"
+SkiOf(c) == IF "ski" \in DOMAIN c THEN c.ski ELSE "none"
+KeyIdsAgree(C) == \A a, b \in C : (a.parses /\ b.parses /\ AkiOf(a) # "none" /\ SkiOf(b) # "none" /\ a.signer = b.key) => AkiOf(a) = SkiOf(b)
 
 \* NAMED CLAUSE NoRepeat.  The text is silent about a certificate submitted twice (a self-signed root links to itself,
 \* so <<.., R, R>> satisfies "each certificate is signed by the next one").  A path never uses a certificate twice, so
@@ -94,6 +108,22 @@ LeafFilters(c, o) == /\ InWindow(c.notAfter, o.start, o.limit)
                      /\ EkuOK(c, o)
                      /\ c.exts \cap o.rejExts = {}
 
+(* ---------- a log's configuration as it is written ---------- *)
+\* The required EKUs and the forbidden extensions of a log are configured as LISTS of names (ext_key_usages,
+\* reject_extensions).  The filter is the SET of the names listed: position, order and repetition mean nothing, and
+\* "any" - first, in the middle, last, alone, repeated - switches the EKU filter off.
+FilterOf(list) == Range(list)
+\* The code's structure: the list is read front to back into the key usages the instance is set up with, and an "any"
+\* seen anywhere empties them afterwards (an empty list of key usages is "no filter").
+CodeKeyUsages(list) == IF \E i \in 1..Len(list) : list[i] = "any" THEN <<>> ELSE list
+CodeEkuOK(c, list) == LET ku == CodeKeyUsages(list) IN Len(ku) = 0 \/ \E i \in 1..Len(ku) : ku[i] \in c.ekus
+CodeExtOK(c, list) == \A i \in 1..Len(list) : list[i] \notin c.exts
+\* options as configured: o.ekuList / o.extList are what the operator wrote, o.ekus / o.rejExts the filter they mean
+Configured(o, ekuList, extList) == [o EXCEPT !.ekus = FilterOf(ekuList), !.rejExts = FilterOf(extList)]
+ListShape(c, o, ekuList, extList) == LET oc == Configured(o, ekuList, extList)
+                                     IN /\ CodeEkuOK(c, ekuList) = EkuOK(c, oc)
+                                        /\ CodeExtOK(c, extList) = (c.exts \cap oc.rejExts = {})
+
 (* ---------- admission ---------- *)
 Endpoints == {"add-chain", "add-pre-chain"}
 \* The verdicts as functions of "is the chain in order" (so that a model checker evaluates ChainOK once per chain):
@@ -119,12 +149,22 @@ OneEndpoint(ch, T, o) == /\ ~(Admit(ch, T, o, "add-chain") /\ Admit(ch, T, o, "a
 (* ---------- the code's structure ---------- *)
 \* buildChains: extend the current chain by every unused trusted certificate that links (a finished path) and by
 \* every unused submitted certificate that links (continue from there)
+\* findPotentialParents: the candidates of a pool are looked up by key identifier FIRST - the certificates whose subject
+\* key identifier is c's authority key identifier, whatever their names - and by name only when that finds nobody.  A
+\* candidate that does not link (a renamed CA found by identifier, a namesake with another key found by name, a forged
+\* twin) is passed over: the search goes on with the other candidates of the trusted pool AND with the submitted
+\* certificates (CodeShape below says that nothing the property admits is lost on the way).
+Candidates(c, pool) == LET byId == {x \in pool : x.parses /\ AkiOf(c) # "none" /\ SkiOf(x) = AkiOf(c)}
+                       IN IF byId # {} THEN byId ELSE {x \in pool : x.parses /\ x.subj = c.issuer}
 RECURSIVE Build(_, _, _)
 Build(cur, pool, T) ==
   LET c == Last(cur)
       fresh(x) == \A i \in 1..Len(cur) : cur[i] # x
-  IN {Append(cur, r) : r \in {r \in T : fresh(r) /\ Links(c, r)}}
-     \cup UNION {Build(Append(cur, m), pool, T) : m \in {m \in pool : fresh(m) /\ Links(c, m)}}
+  IN {Append(cur, r) : r \in {r \in Candidates(c, T) : fresh(r) /\ Links(c, r)}}
+     \cup UNION {Build(Append(cur, m), pool, T) : m \in {m \in Candidates(c, pool) : fresh(m) /\ Links(c, m)}}
+\* the trusted candidates that are looked at and passed over while the path is found elsewhere (vacuity measure of the
+\* hierarchies: > 0 means the search had to go past a decoy)
+Decoys(ch, T) == {p \in (1..Len(ch)) \X T : ch[p[1]].parses /\ p[2] \in Candidates(ch[p[1]], T) /\ ~Links(ch[p[1]], p[2])}
 \* Verify: a leaf found in the trusted pool is its own (only) path; otherwise search through ch[2..]
 CodePaths(ch, T) == IF ~AllParse(ch) THEN {}
                     ELSE IF ch[1] \in T THEN {<<ch[1]>>}
